@@ -7,6 +7,7 @@ import SeqVerif.Proofs.C03SearchProofs
 import SeqVerif.Proofs.C03C02
 import SeqVerif.Proofs.C03FetchProofs
 import SeqVerif.Proofs.C03GroupProofs
+import SeqVerif.Proofs.C03TokenTableProofs
 import SeqVerif.Extracted.C03
 /-!
 # C03 - answers do not depend on the fraction form (active = sealed = reloaded = any cache)
@@ -136,6 +137,22 @@ theorem c03_tokenTable_getVal (rbs base : Nat) (fields : List (List Tok)) (tid :
   obtain ⟨blocks, hb, hc, ha⟩ := genTokenBlocks_spec bsNew rbs bsNew_pos fields
   refine ⟨blocks, hb, ?_⟩
   rw [getValByTID_spec rbs base blocks hc tid h1 (by rw [ha]; exact h2), ha]
+
+/-- **the token table re-loaded from the index file equals the table kept from sealing** (sibling of
+`c03_lidsTable_loaded_eq_preloaded`): `TableLoader.load` over the blocks `writeTokenTableBlocks` wrote - any number of
+fields and entries, any block size, fields of one physical token block spread over several table blocks - returns for
+every field the same MinVal and the same entries (StartIndex, StartTID, BlockIndex, ValCount, MaxVal as stored) -/
+theorem c03_tokenTable_loaded_eq_preloaded (rbs : Nat) (fs : List FieldEntries) (h : ∀ f, f ∈ fs → FieldOK f) :
+    loadTable (writeTable rbs fs []) = fs.map keptField :=
+  tokenTable_loaded_eq_preloaded rbs fs h
+
+example : FieldOK ⟨[102], [⟨0, 0, 1, 1, 2, some [97], [98]⟩, ⟨0, 2, 3, 1, 1, none, [99]⟩]⟩ :=
+  ⟨by unfold U32; decide, by unfold U32; decide, by
+    intro e he
+    simp only [List.mem_cons, List.not_mem_nil, or_false] at he
+    rcases he with rfl | rfl <;>
+      exact ⟨by unfold U32; decide, by unfold U32; decide, by unfold U32; decide, by unfold U32; decide,
+        by unfold U32; decide, by unfold U32; decide⟩⟩
 
 /-- **prefix-hint entry selection is complete**: for a field whose table entries have ascending MaxVals and whose MinVal
 is below every token, the entry range returned by `token.Table.SelectEntries(field, hint)` contains the entry of every
